@@ -1148,6 +1148,13 @@ class ReversedType(_ParameterizedType):
     num_subtypes = 1
 
     @classmethod
+    def apply_parameters(cls, subtypes, names=None):
+        newtype = super(ReversedType, cls).apply_parameters(subtypes, names)
+        # a zero-length value means what it means for the wrapped type ('' for text, null for int)
+        newtype.empty_binary_ok = subtypes[0].empty_binary_ok
+        return newtype
+
+    @classmethod
     def deserialize_safe(cls, byts, protocol_version):
         subtype, = cls.subtypes
         return subtype.from_binary(byts, protocol_version)
@@ -1161,6 +1168,13 @@ class ReversedType(_ParameterizedType):
 class FrozenType(_ParameterizedType):
     typename = "frozen"
     num_subtypes = 1
+
+    @classmethod
+    def apply_parameters(cls, subtypes, names=None):
+        newtype = super(FrozenType, cls).apply_parameters(subtypes, names)
+        # a zero-length value means what it means for the wrapped type ('' for text, null for int)
+        newtype.empty_binary_ok = subtypes[0].empty_binary_ok
+        return newtype
 
     @classmethod
     def deserialize_safe(cls, byts, protocol_version):
